@@ -88,9 +88,24 @@ func c13Eval(v []int) (string, string, bool) {
 		keep = "true"
 	}
 	cfgs := c13Cfgs(keep)
-	m := c13Msg(s, v)
 	w := StartRelayWorld(SimOpts{}, cfgs...)
 	defer w.Close()
+	return c13EvalIn(w, cfgs, v, 0)
+}
+
+func c13EvalIn(w *RelayWorld, cfgs []RCfg, v []int, seq int) (string, string, bool) {
+	s := c13Spec
+	m := c13Msg(s, v)
+	if seq > 0 {
+		for i := range m.Hdrs {
+			switch m.Hdrs[i].Name {
+			case "Call-ID":
+				m.Hdrs[i].Value = fmt.Sprintf("c13-%d", seq)
+			case "Via":
+				m.Hdrs[i].Value = strings.Replace(m.Hdrs[i].Value, "z9hG4bKc13", fmt.Sprintf("z9hG4bKc13x%d", seq), 1)
+			}
+		}
+	}
 	w.Observe()
 	lport := 5060
 	if s.Val(v, "arrival") == "tcp" {
@@ -145,6 +160,40 @@ func c13Eval(v []int) (string, string, bool) {
 	return "", "", nt
 }
 
+type c13Aged struct {
+	w    *RelayWorld
+	cfgs []RCfg
+	n    int
+}
+
+func c13AgedSpec() *AgedSpec {
+	s := c13Spec
+	return &AgedSpec{Spec: s,
+		Group: func(v []int) string {
+			// a next hop that is another listener of the proxy makes the proxy relay again: keep those out of the shared world
+			switch s.Val(v, "first") {
+			case "other-listener", "other-listener-alias", "other-service":
+				return ""
+			}
+			return "keep=" + s.Val(v, "keep") + ",first=" + s.Val(v, "first")
+		},
+		Open: func(v []int) any {
+			keep := ""
+			if s.Val(v, "keep") == "on" {
+				keep = "true"
+			}
+			cfgs := c13Cfgs(keep)
+			return &c13Aged{w: StartRelayWorld(SimOpts{}, cfgs...), cfgs: cfgs}
+		},
+		Close: func(w any) { w.(*c13Aged).w.Close() },
+		Eval: func(w any, v []int) (string, string) {
+			a := w.(*c13Aged)
+			a.n++
+			cl, d, _ := c13EvalIn(a.w, a.cfgs, v, a.n)
+			return cl, d
+		}}
+}
+
 func init() {
 	ent := []string{"absent", "bare", "display", "quoted", "uripars", "hdrpars", "userpct", "lr-first"}
 	c13Spec = &EnumSpec{
@@ -195,9 +244,17 @@ func init() {
 		return true
 	}
 	addCheck(&Check{ID: "C13", Level: "exploration",
-		Rule:   "complete product: first Route entry (14 shapes: own by address/alias/with and without port, near misses, other listeners, decorated own entries) x remaining list of 0-3 (thorough 0-4) entries over a 7-entry alphabet (display names, URI parameters valued/valueless/lr in any position, header parameters, %-escapes) x every layout (all compositions into header lines, with/without blank after commas) x keep-next-hop x arrival transport; the emitted Route list is decoded by the independent reader and compared component-wise with the reference; non-trivial = request carries a Route",
+		Rule:   "complete product: first Route entry (14 shapes: own by address/alias/with and without port, near misses, other listeners, decorated own entries) x remaining list of 0-3 (thorough 0-4) entries over a 7-entry alphabet (display names, URI parameters valued/valueless/lr in any position, header parameters, %-escapes) x every layout (all compositions into header lines, with/without blank after commas) x keep-next-hop x arrival transport; the emitted Route list is decoded by the independent reader and compared component-wise with the reference; second pass: all cases of one (keep, first entry) class fed into ONE long-lived world; non-trivial = request carries a Route",
 		Assume: []string{"two services, three listeners, host table with aliases; only the first emission is compared (exactly-one is C03)"},
-		Run:    func(c *Ctx) { c13Spec.Run(c) },
-		Replay: func(c *Ctx, raw json.RawMessage) string { return c13Spec.Replay(raw) },
+		Run: func(c *Ctx) {
+			c13Spec.Run(c)
+			c13AgedSpec().Run(c)
+		},
+		Replay: func(c *Ctx, raw json.RawMessage) string {
+			if cl, ok := c13AgedSpec().Replay(raw); ok {
+				return cl
+			}
+			return c13Spec.Replay(raw)
+		},
 	})
 }
